@@ -496,13 +496,18 @@ def cholesky_band(l, mininf=0.0):
         lower = l.copy()
         kn = bw - 1
         spot = np.arange(kn, dtype='i4') + 1
-        for j in range(n):
-            lower[0, j] = np.sqrt(lower[0, j])
-            lower[spot, j] /= lower[0, j]
-            x = lower[spot, j]
-            if not np.all(np.isfinite(x)):
-                warn('NaN found in cholesky_band.', PydlutilsUserWarning)
-                return (j, l)
+        with np.errstate(all='ignore'):
+            for j in range(n):
+                lower[0, j] = np.sqrt(lower[0, j])
+                lower[spot, j] /= lower[0, j]
+                x = lower[spot, j]
+                if not (np.isfinite(lower[0, j]) and lower[0, j] > 0 and np.all(np.isfinite(x))):
+                    warn('NaN found in cholesky_band.', PydlutilsUserWarning)
+                    return (j, l)
+                for k in range(1, kn + 1):
+                    lower[0:bw-k, j+k] -= x[k-1] * x[k-1:]
+        warn('cholesky_band could not locate the failing column.', PydlutilsUserWarning)
+        return (n - 1, l)
     #
     # Restore padding.
     #
